@@ -203,6 +203,78 @@ def postcondition(r, user, status, before, after):
     return None
 
 
+PROP_KEYS = [("D:displayname", '<D:displayname%s', "</D:displayname>"),
+             ("C:calendar-description", '<C:calendar-description xmlns:C="urn:ietf:params:xml:ns:caldav"%s', "</C:calendar-description>"),
+             ("ICAL:calendar-color", '<I:calendar-color xmlns:I="http://apple.com/ns/ical/"%s', "</I:calendar-color>")]
+
+
+def props_level(ctx):
+    """`props_from_request` and PROPPATCH against the model (lean/RadicaleModel/PropsReq.lean): bodies with several `set` and
+    `remove` instructions per property in any order and grouping; the function's result, and the stored properties afterwards"""
+    import xml.etree.ElementTree as ET
+    from radicale import xmlutils
+    from common import App
+    rng = ctx.rng("props")
+    for i in range(ctx.n(150, 6000)):
+        instrs = []
+        for _ in range(rng.randint(0, 6)):
+            k = rng.choice(PROP_KEYS)
+            instrs.append({"set": rng.random() < 0.55, "key": k[0], "value": rng.choice(["a", "b", "", "x y", "#ff0000"])})
+            if not instrs[-1]["set"]:
+                instrs[-1]["value"] = ""
+        # consecutive instructions of one kind may share one <set> / <remove> element (several properties in one <prop>)
+        body = '<?xml version="1.0"?><D:propertyupdate xmlns:D="DAV:">'
+        j = 0
+        while j < len(instrs):
+            kind = instrs[j]["set"]
+            group = [instrs[j]]
+            while j + 1 < len(instrs) and instrs[j + 1]["set"] == kind and rng.random() < 0.5:
+                j += 1
+                group.append(instrs[j])
+            j += 1
+            inner = ""
+            for ins in group:
+                spec = [k for k in PROP_KEYS if k[0] == ins["key"]][0]
+                inner += (spec[1] % (">" + ins["value"]) + spec[2]) if kind else (spec[1] % "/>")
+            body += ("<D:set><D:prop>%s</D:prop></D:set>" if kind else "<D:remove><D:prop>%s</D:prop></D:remove>") % inner
+        body += "</D:propertyupdate>"
+        initial = [[k[0], "init"] for k in PROP_KEYS if rng.random() < 0.5]
+        real = list(xmlutils.props_from_request(ET.fromstring(body)).items())
+        case = {"instructions": instrs, "initial": initial}
+        ctx.case("props:%d-instructions" % len(instrs), sample=case, key=["props", i], nontrivial=len(instrs) > 1)
+        a = ctx.driver.ask1({"m": "propsreq", "instrs": instrs, "props": initial}) if ctx.driver else None
+        if a is not None and [list(x) for x in real] != a["result"]:
+            ctx.disagree("props_from_request vs model", case, [list(x) for x in real], a["result"])
+        # independent of the model: the last instruction per property decides
+        last = {}
+        for ins in instrs:
+            last[ins["key"]] = ins
+        want = {k: (ins["value"] if ins["set"] else None) for k, ins in last.items()}
+        if dict(real) != want:
+            ctx.violation("props_from_request returns %s, the last instruction per property gives %s" % (dict(real), want), case, want, dict(real))
+        if i % 5 == 0:
+            with App({"auth": {"type": "none"}}) as app:
+                app.request("MKCALENDAR", "/u/c/", login="u:pw")
+                if initial:
+                    ib = '<?xml version="1.0"?><D:propertyupdate xmlns:D="DAV:"><D:set><D:prop>%s</D:prop></D:set></D:propertyupdate>' % "".join(
+                        [k for k in PROP_KEYS if k[0] == key][0][1] % (">" + v) + [k for k in PROP_KEYS if k[0] == key][0][2] for key, v in initial)
+                    app.request("PROPPATCH", "/u/c/", ib, login="u:pw")
+                st, _, _ = app.request("PROPPATCH", "/u/c/", body, login="u:pw")
+                with app.storage.acquire_lock("r"):
+                    meta = dict(next(iter(app.storage.discover("/u/c/"))).get_meta())
+            stored = {k: v for k, v in meta.items() if k in [x[0] for x in PROP_KEYS]}
+            exp = dict((k, v) for k, v in initial)
+            for k, v in want.items():
+                if v is None:
+                    exp.pop(k, None)
+                else:
+                    exp[k] = v
+            if st == 207 and stored != exp:
+                ctx.violation("after the PROPPATCH the collection has %s, the last instruction per property gives %s" % (stored, exp), case, exp, stored)
+            if a is not None and st == 207 and stored != dict(tuple(x) for x in a["props"]):
+                ctx.disagree("properties after PROPPATCH vs model", case, stored, a["props"])
+
+
 def run(ctx):
     ctx.extra["rule"] = ("random histories of 5-40 requests (MKCOL, MKCALENDAR, PUT item / whole collection, DELETE, MOVE +-Overwrite, PROPPATCH, "
                          "GET, PROPFIND 0/1, multiget) over 9 collection paths, 7 hrefs, 6 UIDs, calendars and address books, with conditional "
@@ -210,6 +282,7 @@ def run(ctx):
     ctx.trusted += ["harness/davsim.py (translation between abstract requests and HTTP, canonical observations)",
                     "SHA-256 ETags as injective function of content (compared up to renaming)"]
     ctx.assumptions += ["sequential execution (concurrency is C09)", "bodies limited to the object pool (valid and invalid combinations)"]
+    props_level(ctx)
     rng = ctx.rng("hist")
     n = ctx.n(40, 1500)
     # quick: the two back-ends, plus one of the cache layouts in turn
